@@ -31,6 +31,7 @@ var (
 	ErrRangeNotSatisfiable  = errors.New("range not satisfiable")
 	ErrIfRangeMismatch      = errors.New("If-Range header mismatch")
 	ErrBadGateway           = errors.New("bad gateway. Error when sending request to upstream")
+	ErrResponseAborted      = errors.New("response aborted while its body was being sent")
 )
 
 type cachedRequestInfo struct {
@@ -93,6 +94,12 @@ func (p *Proxy) ServeHTTP(w http.ResponseWriter, proxyReq *http.Request) {
 	} else {
 		if err := p.handleHTTP(r, proxyReq); err != nil {
 			slog.Error("Error handling HTTP request", "error", err)
+			if errors.Is(err, ErrResponseAborted) {
+				// The body was cut short (e.g. the upstream dropped the transfer) after the head had
+				// been sent. Abort the connection, otherwise the server completes the framing and
+				// the client takes the truncated body for a complete one.
+				panic(http.ErrAbortHandler)
+			}
 			return
 		}
 	}
@@ -116,7 +123,7 @@ func finalizeAndRespond(r responder.Responder, resp io.Reader, status int, req *
 	written, err := r.Write(status, body)
 	if err != nil {
 		slog.Error("Error writing response", "url", req.URL, "error", err)
-		return err
+		return fmt.Errorf("%w: %v", ErrResponseAborted, err)
 	}
 
 	metrics.Global.Requests.BytesServed.Add(written)
@@ -348,6 +355,11 @@ func (p *Proxy) handleCONNECT(r responder.Responder, proxyReq *http.Request) err
 		req.Close = true
 		if err := p.handleHTTP(responder, req); err != nil {
 			slog.Error("Error processing HTTP request in CONNECT tunnel", "host", proxyReq.Host, "error", err)
+			if errors.Is(err, ErrResponseAborted) {
+				// A response was cut short mid-body: the tunnel is no longer in a state where
+				// another exchange can follow. Close it so the client sees the failure.
+				break
+			}
 		}
 	}
 
